@@ -61,7 +61,10 @@ def lower : Handler := fun j => do
   match simpleCopy src dst rs rd with
   | .ok p => return Json.mkObj [("path", Json.str "simple"), ("prog", jProg p)]
   | .error .noMatch =>
-    match transformDma src dst rs rd with
+    let byValue := match j.getObjVal? "byValue" with
+      | .ok (Json.bool b) => b
+      | _ => false
+    match transformDma byValue src dst rs rd with
     | .ok l =>
       return Json.mkObj [("path", Json.str "transform"), ("prog", jProg l.prog), ("tS", jTsl l.tS), ("tD", jTsl l.tD),
         ("lcb", jList jStride l.lcb), ("entries", jList (jList jEntry) l.nested),
